@@ -38,8 +38,8 @@ PROPS = {
               "parallel line arrays grow and move together (G1).",
               "byte-for-byte equality of read-then-write (needs contents); line re-termination and "
               "sbuf capacity are decided under C05 (B3/B4)."),
-    "C02": _p(["W6", "S1", "S2", "S3", "N2", "W3", "W4", "N7"],
-              "opening a new buffer recycles the slot bufs_findroom() picks only past a clean verdict of bufs_modified() for that very slot or a '!'/xwa bypass, the dirty edge failing the command (N7); the saved mark moves only in lbuf_saved (or to 'always dirty' in lbuf_unsaved), the "
+    "C02": _p(["W6", "S1", "S2", "S3", "N2", "W3", "W4", "N7", "S8"],
+              "ec_edit marks a buffer saved only after a read that returned 0, on an empty buffer, or on a fresh one (S8, every path from open() to lbuf_saved()); opening a new buffer recycles the slot bufs_findroom() picks only past a clean verdict of bufs_modified() for that very slot or a '!'/xwa bypass, the dirty edge failing the command (N7); the saved mark moves only in lbuf_saved (or to 'always dirty' in lbuf_unsaved), the "
               "dirty test is `seq of undo position != saved seq`, lbuf_saved bumps afterwards (S1); "
               "every top-level command bumps the command counter (S2); in ec_write the saved mark, "
               "mtime and rename happen only after lbuf_save's success edge, for the buffer's own "
@@ -68,8 +68,8 @@ PROPS = {
               "line command (S1,S2,S4).",
               "equality of texts along arbitrary undo/redo walks (argued by induction on the log "
               "in DESIGN.md, not mechanised); mark restoration."),
-    "C05": _p(["B1", "B2", "B3", "B4", "B5", "B6", "B7", "B9", "B10", "B11", "P1", "N2", "X2", "L2", "L4", "I1", "B12", "B13", "P2", "P3", "X9", "B14", "S7", "B15", "T9"],
-              "every ex_pathexpand result is null-tested before it is dereferenced (B14); stored command text re-enters through ex_command only under a static nesting counter tested against a constant, raised before and lowered after ex_exec (S7); the in-place cut of the history register stays inside its block for hist 1..4 and old texts of 0..4 lines (B15, abstract evaluation with bounds-checked stores); uc_len/uc_code/uc_slen never step or read past the terminator, truncated sequences included, on every string <= 4 bytes of a representative alphabet (T9); no local alias of a block is used after the block was freed in the same function (P3); the pipe written inside cmd_pipe's poll loop is set non-blocking first (X9); every index into the saved-mark arrays of an undo record fits the smallest allocation of that array, loop bounds included (B12); functions handed (buffer, length) pairs keep every store, memcpy and snprintf within the length, given that every call site passes at most the array it owns (B13); no local keeps the current-buffer pointer across a call that can switch or free buffers (P2); the bounded-write clauses named in the anchors, each by a linear proof from the dominating guards (Fourier-Motzkin over the AST's conditions, for all values): writes into fixed arrays at the frozen guard-bounded sites - recording, push-back, repeat, tag stack, auto-indent, vi key stack (B1, guard must be in element units); every strcpy/strcat/sprintf into a fixed array against an interprocedural string-length bound, every snprintf size against its array (B2); every write through a freshly malloc'ed block against the allocation size, incl. line re-termination and the growth copies under the declared struct invariants (B3, I1); the string buffer keeps s_n + written + 1 <= s_sz for allocated and fresh buffers (B4); the 512-byte command gate dominates the three part copies and the copiers write at most one byte per byte read (B5); matcher out-arrays hold 2n ints and the \\\\digit index stays inside (B6); table-bounded loops fit their arrays (B7); every lbuf_get / reg_get result is null-tested, index-proved or given only to null-tolerant callees (B9, B10); the unchecked per-line mark accessors get 0 <= i < lbuf_len (B11); register text is not used across a call that can free it (P1); a successful address resolution is a range inside the buffer (X2); the literal matcher defines all group slots and never looks before the line (L2, L4).",
+    "C05": _p(["B1", "B2", "B3", "B4", "B5", "B6", "B7", "B9", "B10", "B11", "P1", "N2", "X2", "L2", "L4", "I1", "B12", "B13", "P2", "P3", "X9", "B14", "S7", "B15", "T9", "I2"],
+              "the input queue keeps 0 <= read position <= fill count <= its size at every exit of the functions that store either (I2, assumed by B1 for the push-back copy); every ex_pathexpand result is null-tested before it is dereferenced (B14); stored command text re-enters through ex_command only under a static nesting counter tested against a constant, raised before and lowered after ex_exec (S7); the in-place cut of the history register stays inside its block for hist 1..4 and old texts of 0..4 lines (B15, abstract evaluation with bounds-checked stores); uc_len/uc_code/uc_slen never step or read past the terminator, truncated sequences included, on every string <= 4 bytes of a representative alphabet (T9); no local alias of a block is used after the block was freed in the same function (P3); the pipe written inside cmd_pipe's poll loop is set non-blocking first (X9); every index into the saved-mark arrays of an undo record fits the smallest allocation of that array, loop bounds included (B12); functions handed (buffer, length) pairs keep every store, memcpy and snprintf within the length, given that every call site passes at most the array it owns (B13); no local keeps the current-buffer pointer across a call that can switch or free buffers (P2); the bounded-write clauses named in the anchors, each by a linear proof from the dominating guards (Fourier-Motzkin over the AST's conditions, for all values): writes into fixed arrays at the frozen guard-bounded sites - recording, push-back, repeat, tag stack, auto-indent, vi key stack (B1, guard must be in element units); every strcpy/strcat/sprintf into a fixed array against an interprocedural string-length bound, every snprintf size against its array (B2); every write through a freshly malloc'ed block against the allocation size, incl. line re-termination and the growth copies under the declared struct invariants (B3, I1); the string buffer keeps s_n + written + 1 <= s_sz for allocated and fresh buffers (B4); the 512-byte command gate dominates the three part copies and the copiers write at most one byte per byte read (B5); matcher out-arrays hold 2n ints and the \\\\digit index stays inside (B6); table-bounded loops fit their arrays (B7); every lbuf_get / reg_get result is null-tested, index-proved or given only to null-tolerant callees (B9, B10); the unchecked per-line mark accessors get 0 <= i < lbuf_len (B11); register text is not used across a call that can free it (P1); a successful address resolution is a range inside the buffer (X2); the literal matcher defines all group slots and never looks before the line (L2, L4).",
               "absence of all memory errors (indices that are matcher offsets, permutation values or display columns are named exceptions listed in the evidence notes), termination / bounded time, and the %d-only sprintf calls into the small terminal buffers (width depends on window geometry)."),
     "C06": _p(["X1", "X2", "X3", "X4", "X5", "G3", "U1", "X6", "G7", "X7", "X8", "X9"],
               "the filter pipe is non-blocking before the poll loop that feeds it (X9); a caller that reads the range on ex_region's failure path has initialised it (X8); append splices at (end, end), insert at (beg, beg) and change at (beg, end) of the range ex_region validated, on every path to the splice classified by the command letter it tested (X7); the shift of the numbered registers runs down to the register that receives the new text (G7); a write() that sends `total - done` bytes starts at `buf + done` (X6: the filter pipe resumes a partial write where it stopped); all 14 ex_region call sites test the result and the fail edge reaches only failing "
@@ -88,8 +88,8 @@ PROPS = {
               "re-clamps the column off the terminator, and after a motion xoff is a ren_noeol "
               "value (V1).",
               "where a motion lands (behavioural, over runtime text)."),
-    "C09": _p(["V3", "V4", "T4", "B1"],
-              "every case of the vi command switch (and every second key of g) whose calls reach "
+    "C09": _p(["V3", "V4", "T4", "B1", "I2", "Q1", "Q2"],
+              "term_push queues every key it is given or reports it to callers that look (Q2, abstract evaluation on a nearly full queue; open finding D42); what term_push leaves to be read is the pushed keys followed by the keys that were waiting, on every queue state evaluated (Q1, abstract evaluation with a modelled queue); the input queue keeps 0 <= read position <= fill count <= its size at every exit of the functions that store either (I2, assumed by B1 for the push-back copy); every case of the vi command switch (and every second key of g) whose calls reach "
               "lbuf_edit without crossing ex_command/undo/redo is a member of the string that "
               "gates the copy into the repeat buffer, and the repeat length is the copied length "
               "(V3).",
@@ -113,14 +113,14 @@ PROPS = {
     "C14": _p(["M1", "T1", "L2", "B6", "T4", "R5", "R9", "T5", "R12", "R11", "T6", "M2", "R13", "S6"],
               "ex_arg, evaluated abstractly, keeps escaped delimiters and `|` inside the substitute argument (S6); the one-character step after a zero-length match is implied by end == start at any offset (T6); the resumed scan passes the left-context flag so word boundaries see the real preceding character (M2); nothing that can store another keyword runs between ec_substitute storing its own pattern and reading it back (T5); group marks are reset for every start position (R12); rescans of the advanced line can carry RE_NOTBOL so a line-start anchor matches only at the true start (M1); after an empty match the scan advances by a decoded character length, never by a constant byte step on line text without ASCII knowledge, so valid UTF-8 stays valid (T1); group references read defined offsets inside offs[32] (L2, B6).",
               "leftmost non-overlapping selection and replacement expansion (behavioural)."),
-    "C16": _p(["T1", "T2", "T3", "T4", "R5", "T7", "T8", "T9"],
-              "the decoders stay inside a string that ends inside a sequence (T9); vi_case rewrites a byte in place only under a test that it is ASCII (T7); led_readchar terminates its static buffer on every path that returns it (T8); the lead-byte length classes, masks and shifts of uc_len/uc_code equal RFC 3629's for all 256 lead bytes x continuation combinations, and the continuation-scanning uc_end agrees with the lead-byte length on well-formed input (T3); the regex engine's private uc_len/uc_dec/uc_beg equal the editor's on all well-formed inputs, by abstract evaluation of both ASTs (T2); no constant byte step is taken on line text without ASCII knowledge (T1).",
+    "C16": _p(["T1", "T2", "T3", "T4", "R5", "T7", "T8", "T9", "T10"],
+              "led_readchar reads exactly the continuation bytes the lead byte announces, for every length class, from the initial state of its buffer (T10, abstract evaluation); the decoders stay inside a string that ends inside a sequence (T9); vi_case rewrites a byte in place only under a test that it is ASCII (T7); led_readchar terminates its static buffer on every path that returns it (T8); the lead-byte length classes, masks and shifts of uc_len/uc_code equal RFC 3629's for all 256 lead bytes x continuation combinations, and the continuation-scanning uc_end agrees with the lead-byte length on well-formed input (T3); the regex engine's private uc_len/uc_dec/uc_beg equal the editor's on all well-formed inputs, by abstract evaluation of both ASTs (T2); no constant byte step is taken on line text without ASCII knowledge (T1).",
               "agreement of the helpers built on next/previous over all strings (that is exhaustive execution); T4 (character counts never used as byte offsets) is not implemented."),
     "C11": _p(["R1", "R10", "R11", "R2", "R3", "R5", "R7", "R8", "B3", "B6", "R12"],
               "the matching state (program counter, depth, marks, subject pointer) is set afresh inside the scan loop for every start position (R12); the compiled program fits its allocation: rnode_count and rnode_emit/rnode_emitnorep are abstractly evaluated as cost functions (re_insert = 1, children symbolic) for every node kind and every repetition pair that rnode_atom admits (value ranges of the digit accumulation, rejection tests evaluated per cell) and estimate - emitted has only non-negative coefficients; jmpend pushes <= NREPS; regcomp adds its own 3 (R1); the estimate is a bounded quantity: every return of rnode_count is proved <= a constant cap, its arithmetic cannot leave int with children at the cap on every admitted cell, and regcomp allocates and emits only when the estimate is strictly below the cap, i.e. no clamp fired (R10); recursion is depth-guarded and 256 frames fit 1 MiB (R2); the private decoders and the bracket scanner never read or step past the terminator, by exhaustive abstract evaluation over all byte strings up to length 4-5 of a representative alphabet (R3); marks beyond the limit are dropped, reads of marks are index-guarded (R7); pattern allocations are exact (B3) and out-arrays large enough (B6).",
               "termination of matching in general; that offsets fall on character boundaries for literal runs rests on the pattern being valid UTF-8."),
-    "C15": _p(["S4", "G1", "G2", "G4", "B11", "T5", "S5", "S2"],
-              "ex_command's bump is skipped while the global's depth counter is non-zero, so command lists that run registers or scripts stay inside the global's undo step (S4); the same for ec_glob (T5); every name the command table maps to ec_glob gets the same argument split, by abstract evaluation of ex_arg (S5); nothing reachable from a line-command handler or from ex_exec (dispatch edge "
+    "C15": _p(["S4", "G1", "G2", "G4", "B11", "T5", "S5", "S2", "G8", "G9"],
+              "after each execution the scan resumes at 0 or at most at min(current index, lowest changed line), the latter read from a line-buffer field that lbuf_replace lowers to its position on every path, and an enclosing global gets min(its saved value, the inner one) back (G9); every `1 << level` combined with a line's mark uses a level inside the cell's width: the level is the global nesting counter, whose every increment is dominated by a test against a constant that keeps it there (G8); ex_command's bump is skipped while the global's depth counter is non-zero, so command lists that run registers or scripts stay inside the global's undo step (S4); the same for ec_glob (T5); every name the command table maps to ec_glob gets the same argument split, by abstract evaluation of ex_arg (S5); nothing reachable from a line-command handler or from ex_exec (dispatch edge "
               "excluded) bumps the sequence number, and ec_glob nests through ex_exec (S4: the "
               "whole global is one undo step); the global-mark array is moved, grown and cleared "
               "in lock-step with the line table (G1: marks travel with lines, inserted lines are "
